@@ -120,3 +120,18 @@ Proof.
   assert (Hc : In c out) by (eapply Permutation_in; [apply Permutation_sym; exact Hperm|apply Hsub; left; reflexivity]).
   apply (Hfirst O (kahn_topological _ _ _ Hnd E) [] out eq_refl (fun y H => match H with end) c Hc). left. reflexivity.
 Qed.
+
+(* without any assumption: everything in the order is one of the items *)
+Lemma kahn_subset preds : forall fuel items done out,
+    kahn fuel items preds done = Some out -> forall x, In x out -> In x done \/ In x items.
+Proof.
+  induction fuel as [|fuel IH]; intros items done out H x Hx; cbn [kahn] in H.
+  - destruct (Nat.eqb (List.length items) 0); [|discriminate]. inversion H; subst. left. apply in_rev. exact Hx.
+  - destruct items as [|i0 items'] eqn:Ei.
+    + inversion H; subst. left. apply in_rev. exact Hx.
+    + rewrite <- Ei in *. destruct (find (fun y => all_in (preds y) done) items) as [y|] eqn:Ef; [|discriminate].
+      apply find_some in Ef. destruct Ef as [Hin _].
+      destruct (IH _ _ _ H x Hx) as [Hd|Hi].
+      * destruct Hd as [Hd|Hd]; [right; subst; exact Hin|left; exact Hd].
+      * right. apply filter_In in Hi. tauto.
+Qed.
